@@ -20,7 +20,7 @@ EXPLANATION = (
     "documented one.")
 ASSUMPTIONS = ["byte equality of returned content, archive decoding and the duplicate-basename policy are runtime data",
                "urlparse semantics are those of the standard library"]
-TECHNIQUE = 'expression-provenance rules on the reader functions; constant-folded dispatch table of getReadersFromUrls'
+TECHNIQUE = 'expression-provenance rules on the reader functions; constant-folded dispatch table of getReadersFromUrls; guard-sensitive statement decode of the ZIP reader (directory, reference chain, FileLike)'
 
 BASE = 'pysmi/reader/base.py'
 LOCAL = 'pysmi/reader/localfile.py'
